@@ -1432,3 +1432,107 @@ Section FuelProofs.
     snd (run_conn o_corr_f o_scale o_inflate o_pw c (conn_fuel r) s r) = true.
   Proof. intros s r. apply run_conn_fuel. unfold conn_fuel, mu, rbytes. lia. Qed.
 End FuelProofs.
+
+(* ------------------------------------------------------------------------------------------ *)
+(** * The code as repaired (commits 8e7b6f1, efc6f84, d5a464d): the positive statements *)
+
+(* the three repairs are present in the source this development was regenerated from: the constants
+   below exist only if tools/gen_consts.py found the repaired text (otherwise generation fails and the
+   property is reported as no longer shown) *)
+Lemma source_is_repaired :
+  c04_src_scale_rejects_width0 = 0 /\ c04_src_peek_short_count = 0 /\ c04_src_fur_ignores_empty = 0.
+Proof. repeat split; reflexivity. Qed.
+
+(* configurations describing that source *)
+Definition repaired (c : cfg) : Prop :=
+  cf_fix_scale c = true /\ cf_fix_peek c = true /\ cf_fix_fur c = true.
+
+(* along every session, every update divides by nothing zero and reads inside its buffers *)
+Lemma no_div_zero_sessions : forall o_corr_f o_scale o_inflate o_pw c fuel r obs s' r' ok v r'' eff,
+  cfg_ok c -> cf_w c <= 65535 -> cf_h c <= 65535 -> fpu_ok o_corr_f -> repaired c ->
+  reader_bytes_ok r ->
+  run_conn o_corr_f o_scale o_inflate o_pw c fuel (init_state c) r = (obs, Some s', r', ok) ->
+  update o_corr_f c s' r' = (v, r'', eff) ->
+  Forall q_safe eff.
+Proof.
+  intros o_corr_f o_scale o_inflate o_pw c fuel r obs s' r' ok v r'' eff Hc HW HH Hfpu (Hs & _ & Hf) Hr Hrun Hup.
+  destruct (scaled_inv_fixed o_corr_f o_scale o_inflate o_pw c fuel r obs s' r' ok Hc Hs Hf Hr Hrun) as [Hi Hr'].
+  exact (update_safe o_corr_f c HW HH Hfpu s' r' v r'' eff Hi Hr' Hup).
+Qed.
+
+Lemma connect_terminates : forall c r, repaired c -> fst (fst (connect c r)) <> CWedge.
+Proof. intros c r (_ & Hp & _). apply connect_fixed_no_wedge; exact Hp. Qed.
+
+(* the waits of connection set-up are bounded too: the peek (tmo = 100 ms) and the version write *)
+Lemma pk_nap_waits : forall tmo evs avail el eof reset st ws,
+  0 < tmo -> evs_wf evs -> 0 <= el < tmo -> Forall (fun t => 0 <= t <= tmo) ws ->
+  Forall (fun t => 0 <= t <= tmo) (po_waits (pk_nap tmo evs avail el eof reset st ws)).
+Proof.
+  intros tmo evs. induction evs as [|e r IH]; intros avail el eof reset st ws Ht Hwf Hel Hws; cbn [pk_nap].
+  - cbn. apply Forall_app; split; auto. constructor; [lia|constructor].
+  - destruct e; cbn in Hwf.
+    + destruct Hwf as [Hd Hr].
+      destruct (4 <=? length (avail ++ l))%nat; cbn.
+      * apply Forall_app; split; auto. constructor; [lia|constructor].
+      * destruct (tmo <=? el + 1) eqn:E; cbn.
+        -- apply Forall_app; split; auto. constructor; [lia|constructor].
+        -- apply IH; auto. lia.
+    + destruct Hwf as [Hd Hr]. destruct (tmo <=? el + t) eqn:E; cbn.
+      * apply Forall_app; split; auto. constructor; [lia|constructor].
+      * apply IH; auto. lia.
+    + destruct (tmo <=? el + 1) eqn:E; cbn.
+      * apply Forall_app; split; auto. constructor; [lia|constructor].
+      * apply IH; auto. lia.
+    + destruct (tmo <=? el + 1) eqn:E; cbn.
+      * apply Forall_app; split; auto. constructor; [lia|constructor].
+      * apply IH; auto. lia.
+    + apply IH; auto.
+Qed.
+
+Lemma pk_wait_fixed_waits : forall tmo evs paused st ws,
+  0 < tmo -> evs_wf evs -> 0 <= paused < tmo -> Forall (fun t => 0 <= t <= tmo) ws ->
+  Forall (fun t => 0 <= t <= tmo) (po_waits (pk_wait_fixed tmo evs paused st ws)).
+Proof.
+  intros tmo evs. induction evs as [|e r IH]; intros paused st ws Ht Hwf Hp Hws; cbn [pk_wait_fixed].
+  - cbn. apply Forall_app; split; auto. constructor; [lia|constructor].
+  - destruct e; cbn in Hwf.
+    + destruct Hwf as [Hd Hr]. destruct (4 <=? length l)%nat; cbn.
+      * apply Forall_app; split; auto. constructor; [lia|constructor].
+      * apply pk_nap_waits; auto; [lia|]. apply Forall_app; split; auto. constructor; [lia|constructor].
+    + destruct Hwf as [Hd Hr]. destruct (tmo <=? paused + t) eqn:E; cbn.
+      * apply Forall_app; split; auto. constructor; [lia|constructor].
+      * apply IH; auto. lia.
+    + cbn. apply Forall_app; split; auto. constructor; [lia|constructor].
+    + cbn. apply Forall_app; split; auto. constructor; [lia|constructor].
+    + apply IH; auto.
+Qed.
+
+Lemma peek4_fixed_waits : forall tmo r,
+  0 < tmo -> evs_wf (r_evs r) ->
+  Forall (fun t => 0 <= t <= tmo) (po_waits (peek4 true tmo r)).
+Proof.
+  intros tmo r Ht Hwf. unfold peek4.
+  repeat match goal with |- context [if ?b then _ else _] => destruct b end; cbn; try (constructor; fail).
+  - apply pk_nap_waits; auto; try lia.
+  - apply pk_wait_fixed_waits; auto; try lia.
+Qed.
+
+Lemma connect_wait_bound : forall c r st r' eff,
+  cfg_ok c -> repaired c -> evs_wf (r_evs r) -> connect c r = (st, r', eff) ->
+  Forall (wait_le (Z.max c04_ws_connect_wait c04_write_slice_ms)) eff.
+Proof.
+  intros c r st r' eff Hc (_ & Hp & _) Hwf H. unfold connect in H. rewrite Hp in H.
+  assert (Ht : 0 < c04_ws_connect_wait) by (vm_compute; reflexivity).
+  pose proof (peek4_fixed_waits c04_ws_connect_wait r Ht Hwf) as Hws.
+  set (B := Z.max c04_ws_connect_wait c04_write_slice_ms) in *.
+  assert (Hmap : Forall (wait_le B) (map Wait (po_waits (peek4 true c04_ws_connect_wait r)))).
+  { eapply map_wait_le; eauto. unfold B. lia. }
+  assert (Hst : Forall (wait_le B) (stall_waits c)).
+  { unfold stall_waits. assert (0 <= c04_write_slice_ms) by (vm_compute; discriminate).
+    induction (stall_slices c); cbn; constructor; auto. cbn. unfold B. lia. }
+  destruct (po_res (peek4 true c04_ws_connect_wait r));
+    repeat match type of H with context [if ?b then _ else _] => destruct b end;
+    inversion H; subst; cbn [app];
+    repeat first [ exact Hmap | exact Hst | apply Forall_app; split
+                 | apply Forall_cons; [exact I|] | apply Forall_nil ].
+Qed.
